@@ -103,7 +103,8 @@ Proof.
                          (meta_fixed_lookup_ok r M)) as CF.
     destruct (call _ _ _ _ _ _ _ _ _ _ _) as [d o|o|d callee' o].
     + cbn [fst snd]. destruct CF as [[Cn _ _] _]. apply ev_step_noev. exact Cn.
-    + specialize (Lv r None S0). destruct (leave r (s_id s)) as [r1 o1]. cbn [fst snd] in *.
+    + cbv zeta. specialize (Lv (r_set_dealer r (call_abort_dealer (lookup r) (r_dealer r) s req opts proc oracle)) None (sub_st_dealer _ _ _ S0)).
+      destruct (leave _ (s_id s)) as [r1 o1]. cbn [fst snd] in *.
       apply ev_step_app; [apply ev_step_noev; exact (proj1 CF)|exact Lv].
     + destruct CF as ([Cn _ _] & (b & rid & det & Eo) & c0 & Hl & Hc).
       destruct (N.eqb_spec (s_id callee') meta_id) as [Em|Em].
@@ -220,7 +221,7 @@ Proof.
                          (meta_fixed_lookup_ok r M)) as CF.
     destruct (call _ _ _ _ _ _ _ _ _ _ _) as [d o|o|d callee' o].
     + exact M.
-    + specialize (Lv r eq_refl). destruct (leave r (s_id s)) as [r1 o1]. exact Lv.
+    + cbv zeta. specialize (Lv (r_set_dealer r (call_abort_dealer (lookup r) (r_dealer r) s req opts proc oracle)) eq_refl). destruct (leave _ (s_id s)) as [r1 o1]. exact Lv.
     + destruct CF as (_ & _ & c0 & Hl & Hc).
       eapply meta_fixed_ext; [apply run_meta_invocation_meta|].
       unfold update_session. destruct (N.eqb_spec (s_id callee') meta_id) as [Em|Em]; [|exact M].
